@@ -529,22 +529,41 @@ pub struct CffM {
     pub kind: KindM,
     /// offSize forced on every INDEX (0 = minimal)
     pub index_off_size: u8,
+    /// offsets in the Top, Font and Private DICTs use the shortest integer form (as font tools
+    /// write them) instead of the fixed 5-byte form, and Subrs comes first in its Private DICT
+    pub short_offsets: bool,
 }
 
-fn off(v: usize) -> Num {
-    Num::Int32(v as i32)
-}
-
-/// Private DICT bytes with a Subrs entry pointing just past the DICT
-fn enc_private(p: &PrivM, os: u8) -> (Vec<u8>, Vec<u8>) {
-    let mut d = p.dict.clone();
-    if p.subrs.is_some() {
-        d.push((OP_SUBRS, vec![off(0)]));
+fn off(v: usize, short: bool) -> Num {
+    if short {
+        Num::Int(v as i32)
+    } else {
+        Num::Int32(v as i32)
     }
-    let len = enc_dict(&d).len();
+}
+
+/// Private DICT bytes with a Subrs entry pointing just past the DICT. With `short` the offset
+/// uses the shortest integer form (so the DICT length depends on it: fixpoint) and the entry
+/// comes first instead of last.
+fn enc_private(p: &PrivM, os: u8, short: bool) -> (Vec<u8>, Vec<u8>) {
+    let mut d = p.dict.clone();
+    let mut at = 0;
     if p.subrs.is_some() {
-        let last = d.len() - 1;
-        d[last].1 = vec![off(len)];
+        if short {
+            d.insert(0, (OP_SUBRS, vec![off(0, short)]));
+        } else {
+            d.push((OP_SUBRS, vec![off(0, short)]));
+            at = d.len() - 1;
+        }
+        let mut len = enc_dict(&d).len();
+        for _ in 0..8 {
+            d[at].1 = vec![off(len, short)];
+            let l2 = enc_dict(&d).len();
+            if l2 == len {
+                break;
+            }
+            len = l2;
+        }
     }
     let dict = enc_dict(&d);
     let subrs = p.subrs.as_ref().map(|s| enc_index(s, os, false)).unwrap_or_default();
@@ -552,8 +571,29 @@ fn enc_private(p: &PrivM, os: u8) -> (Vec<u8>, Vec<u8>) {
 }
 
 pub fn enc_cff(m: &CffM) -> Vec<u8> {
+    if m.short_offsets {
+        // offsets in their shortest form: the Top DICT INDEX length and the offsets depend on each other
+        let mut guess = 0usize;
+        for _ in 0..16 {
+            let (mut out, top_at, ti) = assemble_cff(m, guess, true);
+            if ti.len() == guess {
+                out[top_at..top_at + ti.len()].copy_from_slice(&ti);
+                return out;
+            }
+            guess = ti.len();
+        }
+    }
+    let (_, _, t0) = assemble_cff(m, 0, false);
+    let (mut out, top_at, ti) = assemble_cff(m, t0.len(), false);
+    debug_assert_eq!(ti.len(), t0.len());
+    out[top_at..top_at + ti.len()].copy_from_slice(&ti);
+    out
+}
+
+/// lay the table out with `top_index_len` bytes reserved for the Top DICT INDEX; returns the
+/// table (reserved bytes zero), the position of the reservation and the Top DICT INDEX for this layout
+fn assemble_cff(m: &CffM, top_index_len: usize, short: bool) -> (Vec<u8>, usize, Vec<u8>) {
     let os = m.index_off_size;
-    // the Top DICT is laid out twice: first with zero offsets to learn its size (offsets always use the 5-byte form)
     let build = |offs: &[usize; 6], fd_privs: &[(usize, usize)]| -> (Vec<u8>, Vec<Vec<u8>>) {
         // offs: charstrings, charset, encoding, private, fdarray, fdselect
         let mut top: DictM = Vec::new();
@@ -564,40 +604,37 @@ pub fn enc_cff(m: &CffM) -> Vec<u8> {
         match &m.charset {
             CharsetM::Predefined(k, true) => top.push((OP_CHARSET, vec![Num::Int(*k as i32)])),
             CharsetM::Predefined(_, false) => {}
-            _ => top.push((OP_CHARSET, vec![off(offs[1])])),
+            _ => top.push((OP_CHARSET, vec![off(offs[1], short)])),
         }
-        top.push((OP_CHARSTRINGS, vec![off(offs[0])]));
+        top.push((OP_CHARSTRINGS, vec![off(offs[0], short)]));
         let mut fd_dicts = Vec::new();
         match &m.kind {
             KindM::Type1 { encoding, private } => {
                 match encoding {
                     EncodingM::Predefined(k, true) => top.push((OP_ENCODING, vec![Num::Int(*k as i32)])),
                     EncodingM::Predefined(_, false) => {}
-                    _ => top.push((OP_ENCODING, vec![off(offs[2])])),
+                    _ => top.push((OP_ENCODING, vec![off(offs[2], short)])),
                 }
-                let plen = enc_private(private, os).0.len();
-                top.push((OP_PRIVATE, vec![off(plen), off(offs[3])]));
+                let plen = enc_private(private, os, short).0.len();
+                top.push((OP_PRIVATE, vec![off(plen, short), off(offs[3], short)]));
             }
             KindM::Cid { fds, .. } => {
-                top.push((OP_FDARRAY, vec![off(offs[4])]));
-                top.push((OP_FDSELECT, vec![off(offs[5])]));
+                top.push((OP_FDARRAY, vec![off(offs[4], short)]));
+                top.push((OP_FDSELECT, vec![off(offs[5], short)]));
                 for (i, (fd, _)) in fds.iter().enumerate() {
                     let mut d = fd.clone();
                     let (po, pl) = fd_privs.get(i).copied().unwrap_or((0, 0));
-                    d.push((OP_PRIVATE, vec![off(pl), off(po)]));
+                    d.push((OP_PRIVATE, vec![off(pl, short), off(po, short)]));
                     fd_dicts.push(enc_dict(&d));
                 }
             }
         }
         (enc_dict(&top), fd_dicts)
     };
-    let n_fds = if let KindM::Cid { fds, .. } = &m.kind { fds.len() } else { 0 };
-    let (top0, _) = build(&[0; 6], &vec![(0, 0); n_fds]);
     let mut b = Buf::new();
     b.u8(1).u8(m.minor).u8(4 + m.hdr_extra).u8(m.hdr_off_size);
     b.zeros(m.hdr_extra as usize);
     b.bytes(&enc_index(&[m.name.clone()], os, false));
-    let top_index_len = enc_index(&[top0], os, false).len();
     let top_at = b.len();
     b.zeros(top_index_len);
     b.bytes(&enc_index(&m.strings, os, false));
@@ -613,12 +650,12 @@ pub fn enc_cff(m: &CffM) -> Vec<u8> {
             offs[2] = b.len();
             b.bytes(&enc_encoding(encoding));
             offs[3] = b.len();
-            let (d, s) = enc_private(private, os);
+            let (d, s) = enc_private(private, os, short);
             b.bytes(&d).bytes(&s);
         }
         KindM::Cid { fds, fdselect, .. } => {
             for (_, p) in fds {
-                let (d, s) = enc_private(p, os);
+                let (d, s) = enc_private(p, os, short);
                 fd_privs.push((b.len(), d.len()));
                 b.bytes(&d).bytes(&s);
             }
@@ -631,10 +668,7 @@ pub fn enc_cff(m: &CffM) -> Vec<u8> {
     }
     let (top, _) = build(&offs, &fd_privs);
     let ti = enc_index(&[top], os, false);
-    debug_assert_eq!(ti.len(), top_index_len);
-    let mut out = b.into_vec();
-    out[top_at..top_at + ti.len()].copy_from_slice(&ti);
-    out
+    (b.into_vec(), top_at, ti)
 }
 
 /// What can be observed of a CFF table (first font only)
@@ -794,8 +828,9 @@ pub struct IvsM {
     /// regions: per axis (start, peak, end) raw F2Dot14
     pub regions: Vec<Vec<(i16, i16, i16)>>,
     pub subtables: Vec<IvdM>,
-    /// encoder only: put the region list after the subtables
-    pub regions_last: bool,
+    /// encoder only: bit 0 puts the region list after the sub-tables, bit 1 stores identical
+    /// sub-tables once and lets their offsets share the copy
+    pub layout: u8,
 }
 
 fn enc_ivd(s: &IvdM) -> Vec<u8> {
@@ -831,42 +866,36 @@ pub fn enc_ivs(m: &IvsM) -> Vec<u8> {
             regions.i16(a.0).i16(a.1).i16(a.2);
         }
     }
+    let (regions_last, share) = (m.layout & 1 == 1, m.layout & 2 == 2);
     let subs: Vec<Vec<u8>> = m.subtables.iter().map(enc_ivd).collect();
     let header = 8 + 4 * subs.len();
-    let mut b = Buf::new();
-    b.u16(1);
-    let mut at = header;
-    let region_at;
-    let mut sub_at = Vec::new();
-    if m.regions_last {
-        for s in &subs {
-            sub_at.push(at);
-            at += s.len();
-        }
-        region_at = at;
-    } else {
-        region_at = at;
-        at += regions.len();
-        for s in &subs {
-            sub_at.push(at);
-            at += s.len();
-        }
+    let mut body = Buf::new();
+    if !regions_last {
+        body.bytes(&regions.0);
     }
-    b.u32(region_at as u32).u16(subs.len() as u16);
+    let region_at_first = header;
+    let mut sub_at: Vec<usize> = Vec::new();
+    for (i, s) in subs.iter().enumerate() {
+        if share {
+            if let Some(j) = (0..i).find(|j| subs[*j] == *s) {
+                let at = sub_at[j];
+                sub_at.push(at);
+                continue;
+            }
+        }
+        sub_at.push(header + body.len());
+        body.bytes(s);
+    }
+    let region_at = if regions_last { header + body.len() } else { region_at_first };
+    if regions_last {
+        body.bytes(&regions.0);
+    }
+    let mut b = Buf::new();
+    b.u16(1).u32(region_at as u32).u16(subs.len() as u16);
     for o in &sub_at {
         b.u32(*o as u32);
     }
-    if m.regions_last {
-        for s in &subs {
-            b.bytes(s);
-        }
-        b.bytes(&regions.0);
-    } else {
-        b.bytes(&regions.0);
-        for s in &subs {
-            b.bytes(s);
-        }
-    }
+    b.bytes(&body.0);
     b.into_vec()
 }
 
@@ -929,7 +958,7 @@ pub fn dec_ivs(d: &[u8]) -> Result<IvsM, String> {
         }
         subtables.push(IvdM { region_indexes, word_count: wc as u16, long, rows });
     }
-    Ok(IvsM { axis_count, regions, subtables, regions_last: false })
+    Ok(IvsM { axis_count, regions, subtables, layout: 0 })
 }
 
 /// exact value (as a rational num/den pair folded into f64) of the adjustment for one item
@@ -1016,7 +1045,7 @@ pub fn obs_of_model2(m: &Cff2M) -> Cff2Obs {
         charstrings: m.charstrings.clone(),
         fds: m.fds.iter().map(|p| PrivObs { dict: strip2(&dict_obs(&p.dict)), subrs: p.subrs.clone() }).collect(),
         fd_of_glyph: m.fdselect.as_ref().map(|f| (0..n).map(|g| f.fd_of(g as u16)).collect()),
-        vstore: m.vstore.as_ref().map(|v| IvsM { regions_last: false, ..v.clone() }),
+        vstore: m.vstore.as_ref().map(|v| IvsM { layout: 0, ..v.clone() }),
     }
 }
 
@@ -1027,13 +1056,13 @@ pub fn enc_cff2(m: &Cff2M) -> Vec<u8> {
         if let Some(fm) = &m.font_matrix {
             top.push((OP_FONTMATRIX, fm.clone()));
         }
-        top.push((OP_CHARSTRINGS, vec![off(offs[0])]));
-        top.push((OP_FDARRAY, vec![off(offs[1])]));
+        top.push((OP_CHARSTRINGS, vec![off(offs[0], false)]));
+        top.push((OP_FDARRAY, vec![off(offs[1], false)]));
         if m.fdselect.is_some() {
-            top.push((OP_FDSELECT, vec![off(offs[2])]));
+            top.push((OP_FDSELECT, vec![off(offs[2], false)]));
         }
         if m.vstore.is_some() {
-            top.push((OP_VSTORE, vec![off(offs[3])]));
+            top.push((OP_VSTORE, vec![off(offs[3], false)]));
         }
         enc_dict(&top)
     };
@@ -1060,19 +1089,19 @@ pub fn enc_cff2(m: &Cff2M) -> Vec<u8> {
         // Subrs offset is relative to the Private DICT; the INDEX follows it, with a 32-bit count
         let mut d = p.dict.clone();
         if p.subrs.is_some() {
-            d.push((OP_SUBRS, vec![off(0)]));
+            d.push((OP_SUBRS, vec![off(0, false)]));
         }
         let len = enc_dict(&d).len();
         if p.subrs.is_some() {
             let last = d.len() - 1;
-            d[last].1 = vec![off(len)];
+            d[last].1 = vec![off(len, false)];
         }
         let at = b.len();
         b.bytes(&enc_dict(&d));
         if let Some(s) = &p.subrs {
             b.bytes(&enc_index(s, os, true));
         }
-        fd_dicts.push(enc_dict(&vec![(OP_PRIVATE, vec![off(len), off(at)])]));
+        fd_dicts.push(enc_dict(&vec![(OP_PRIVATE, vec![off(len, false), off(at, false)])]));
     }
     offs[1] = b.len();
     b.bytes(&enc_index(&fd_dicts, os, true));
